@@ -163,6 +163,26 @@ class InfoLearner:
     def learn(self, context, action, reward, probability, **kw):
         from coba.context import CobaContext
         self.n += 1; CobaContext.learning_info["seen"] = self.n
+class MaybeScoreLearner:
+    """instances of ONE class that differ in whether they offer score (like a wrapper that forwards score to whatever it wraps)"""
+    def __init__(self, with_score):
+        self.w, self.n = with_score, 0
+        if with_score: self.score = self._score
+    @property
+    def params(self): return {"family": "MaybeScore", "score": self.w}
+    def _score(self, context, actions, action):
+        if actions is None: raise ValueError("probe")
+        return 1 / len(actions)
+    def predict(self, context, actions): return actions[self.n % len(actions)], 1.0
+    def learn(self, context, action, reward, probability, **kw): self.n += 1
+class FinishLearner:
+    """a learner with a finish() hook (closing a model): a finished learner behaves differently, so finishing anything but the evaluated copy shows in later triples"""
+    def __init__(self): self.n, self.closed = 0, False
+    @property
+    def params(self): return {"family": "Finish"}
+    def predict(self, context, actions): return actions[(self.n + (1 if self.closed else 0)) % len(actions)], 1.0
+    def learn(self, context, action, reward, probability, **kw): self.n += 1
+    def finish(self): self.closed = True
 class FailingLearner:
     """raises at the k-th call of one of its methods"""
     def __init__(self, where, k): self.where, self.k, self.c = where, k, {"predict": 0, "learn": 0}
@@ -190,6 +210,11 @@ class FailingEnv:
         for i, x in enumerate(Environments.from_linear_synthetic(6, n_actions=3, seed=7)[0].read()):
             if i == self.k: raise Exception("verif: read failure")
             yield x
+class FailingIterEnv(FailingEnv):
+    """an environment object that can itself be iterated (as pipelines can) - and whose iteration fails the same way its read does"""
+    @property
+    def params(self): return {"env_type": "FailingIterEnv", "k": self.k}
+    def __iter__(self): return iter(self.read())
 class SlowPickleEnv:
     """an environment that is slow to serialise (the loader thread lags behind the workers) but yields the same interactions"""
     def __init__(self, n, seed, delay): self.n, self.seed, self.delay = n, seed, delay
@@ -223,6 +248,7 @@ def build(spec):
         kind = e[0]
         if kind == "lin": envs.append(Environments.from_linear_synthetic(e[1], n_actions=3, n_context_features=2, n_action_features=2, seed=e[2])[0])
         elif kind == "fail": envs.append(FailingEnv(e[1]))
+        elif kind == "failiter": envs.append(FailingIterEnv(e[1]))
         elif kind == "slow": envs.append(SlowPickleEnv(e[1], e[2], e[3]))
         elif kind == "group":      # several environments sharing a prefix: base -> [chunk/cache] -> shuffle(n) fan-out [-> batch]
             gid = e[1]
@@ -240,11 +266,11 @@ def build(spec):
     for l in spec["lrns"]:
         kind = l[0]
         lrns.append(RandomLearner() if kind == "random" else BanditEpsilonLearner(0.2) if kind == "eps" else BanditUCBLearner() if kind == "ucb" else FixedLearner([1, 0, 0]) if kind == "fixed"
-                    else CountingLearner(l[1]) if kind == "count" else KwargsLearner() if kind == "kwargs" else InfoLearner() if kind == "info" else FailingLearner(l[1], l[2]))
+                    else CountingLearner(l[1]) if kind == "count" else KwargsLearner() if kind == "kwargs" else InfoLearner() if kind == "info" else MaybeScoreLearner(l[1]) if kind == "mscore" else FinishLearner() if kind == "finish" else FailingLearner(l[1], l[2]))
     vals = []
     for v in spec["vals"]:
         kind = v[0]
-        vals.append(SequentialCB() if kind == "seq" else SequentialCB(record=["reward", "action", "probability", "context"], seed=v[1]) if kind == "seq2" else RejectionCB() if kind == "rej" else custom_eval)
+        vals.append(SequentialCB() if kind == "seq" else SequentialCB(record=["reward", "action", "probability", "context"], seed=v[1]) if kind == "seq2" else RejectionCB() if kind == "rej" else SequentialCB(record=["reward"], learn="off", eval="ips") if kind == "seqips" else custom_eval)
     return [(envs[e], lrns[l], vals[v]) for e, l, v in spec["triples"]]
 
 DROP = {"predict_time", "learn_time"}
@@ -322,12 +348,15 @@ def gen_spec(rng, failures=False, batched=False):
             for j in range(g["fan"]): envs.append(["group", len(groups) - 1, j])
         else:
             envs.append(["lin", rng.choice([5, 8]), rng.randrange(1, 50)])
-    if failures and rng.random() < 0.4: envs.append(["fail", rng.choice([0, 2, 4])])
-    pool = [["random"], ["eps"], ["ucb"], ["fixed"], ["count", 1], ["count", 2], ["kwargs"], ["info"]]
+    if failures and rng.random() < 0.4: envs.append([rng.choice(["fail", "failiter"]), rng.choice([0, 2, 4])])
+    pool = [["random"], ["eps"], ["ucb"], ["fixed"], ["count", 1], ["count", 2], ["kwargs"], ["info"], ["finish"]]
     lrns = [rng.choice(pool) for _ in range(rng.choice([1, 2, 3]))]
     if failures: lrns.append(["failing", rng.choice(["predict", "learn", "params"]), rng.choice([1, 2, 3])])
     logged_all = all(e[0] == "group" and groups[e[1]].get("logged") for e in envs)
-    vals = [rng.choice([["seq"], ["seq2", rng.choice([3, 7])], ["custom"]] + ([["rej"]] if logged_all else [])) for _ in range(rng.choice([1, 1, 2]))]
+    vals = [rng.choice([["seq"], ["seq2", rng.choice([3, 7])], ["custom"]] + ([["rej"], ["seqips"]] if logged_all else [])) for _ in range(rng.choice([1, 1, 2]))]
+    if logged_all and not failures and rng.random() < 0.6:      # two learners of one class, only one of which can score, under an evaluator that asks
+        pair = [["mscore", True], ["mscore", False]]; rng.shuffle(pair); lrns = (lrns + pair)[-3:]
+        if not any(v[0] in ("rej", "seqips") for v in vals): vals[0] = rng.choice([["rej"], ["seqips"]])
     if vals == [["custom"]] and any(e[0] == "group" and groups[e[1]].get("batch") for e in envs): vals = [["seq"]]
     ne, nl, nv = len(envs), len(lrns), len(vals)
     if rng.random() < 0.5: trip = [[e, l, v] for e in range(ne) for l in range(nl) for v in range(nv)]
